@@ -308,3 +308,191 @@ def replay(prop, path):
         return 1
     print('no concrete input recorded (no-failing-input-found); re-run ./check %s to re-verify the obligation' % rep.get('property'))
     return 0
+
+
+# ---- CBMC: C runtime (io.c) and generated C drivers (C20) -----------------------------------------
+IO_C = '/repo/lang/driver/infrastructure/io.c'
+CDIR = os.path.join(VERIF, 'c')
+CBMC_FLAGS = ['--signed-overflow-check', '--bounds-check', '--pointer-check', '--unwind', '22', '--unwinding-assertions']
+
+
+def _cbmc(args, timeout):
+    t0 = time.time()
+    try:
+        p = subprocess.run(['cbmc'] + args, capture_output=True, text=True, timeout=timeout)
+    except subprocess.TimeoutExpired:
+        return 'timeout', '', time.time() - t0
+    out = p.stdout + p.stderr
+    if 'VERIFICATION SUCCESSFUL' in out:
+        return 'ok', out, time.time() - t0
+    if 'VERIFICATION FAILED' in out:
+        return 'fail', out, time.time() - t0
+    return 'error', out, time.time() - t0
+
+
+def io_boundaries():
+    vals = [0, 1, -1, 9, -9, 10, -10, 2**31, -2**31, 2**31 - 1, -2**31 - 1, 2**32, -2**32, 2**63 - 1, -2**63, -2**63 + 1]
+    for k in range(1, 19):
+        vals += [10**k - 1, -(10**k - 1), 10**k, -(10**k), 10**k + 1]
+    return sorted(set(vals))
+
+
+def c_lit(v):
+    if v == -2**63:
+        return '(-9223372036854775807LL-1)'
+    return '(%dLL)' % v
+
+
+def native_print(v, line):
+    """Replay: compile the REAL io.c natively and print v; returns the bytes written."""
+    bdir = os.path.join(VERIF, 'build', 'io_replay')
+    os.makedirs(bdir, exist_ok=True)
+    main_c = os.path.join(bdir, 'main.c')
+    with open(main_c, 'w') as f:
+        f.write('#include <stdint.h>\n#include <stdlib.h>\nvoid print_i64(int64_t) asm("print_i64");\nvoid println_i64(int64_t) asm("println_i64");\n'
+                'int main(int c, char**a){ int64_t v = (int64_t)strtoull(a[1], 0, 10); if (a[2][0]==\'1\') println_i64(v); else print_i64(v); return 0; }\n')
+    exe = os.path.join(bdir, 'io_replay')
+    p = subprocess.run(['gcc', '-O0', '-fwrapv', '-o', exe, main_c, IO_C], capture_output=True, text=True)
+    if p.returncode != 0:
+        return None
+    r = subprocess.run([exe, str(v % 2**64), '1' if line else '0'], capture_output=True)
+    return r.stdout
+
+
+@register('cbmc_io')
+def cbmc_io(prop, tier, seed):
+    import concurrent.futures as cf
+    r = AuxResult('cbmc_io', level='bounded')
+    base = [os.path.join(CDIR, 'io_harness.c'), '-DIO_C_PATH="%s"' % IO_C] + CBMC_FLAGS
+    jobs = []   # (name, args, timeout)
+    if tier == 'quick':
+        jobs.append(('symbolic -9999..9999', ['-DLO=-9999', '-DHI=9999'], 600))
+        for v in io_boundaries():
+            jobs.append(('constant %d' % v, ['-DCONST=%s' % c_lit(v)], 120))
+        r.bound = 'CBMC on the real io.c: all values -9999..9999 symbolically (both variants) + %d boundary constants (0, +-1, +-(10^k-1), +-10^k, 10^k+1 for k=1..18, +-2^31, +-2^32, INT64_MAX, INT64_MIN); loop unwound 22x with unwinding assertions' % len(io_boundaries())
+    else:
+        # partition of the whole int64 domain into digit classes x sign; complete iff every class finishes
+        bounds = [0] + [10**k for k in range(1, 19)] + [2**63]
+        for k in range(len(bounds) - 1):
+            lo, hi = bounds[k], bounds[k + 1] - 1
+            jobs.append(('%d-digit non-negative' % (k + 1), ['-DLO=%s' % c_lit(lo), '-DHI=%s' % c_lit(hi)], 1800))
+            nlo, nhi = -bounds[k + 1] + (0 if k + 1 < len(bounds) - 1 else 0), -max(lo, 1)
+            if k + 1 == len(bounds) - 1:
+                nlo = -2**63
+            else:
+                nlo = -(bounds[k + 1] - 1)
+            jobs.append(('%d-digit negative' % (k + 1), ['-DLO=%s' % c_lit(nlo), '-DHI=%s' % c_lit(nhi)], 1800))
+        for v in io_boundaries():
+            jobs.append(('constant %d' % v, ['-DCONST=%s' % c_lit(v)], 120))
+        r.bound = 'CBMC on the real io.c: the int64 domain partitioned into 19 digit classes x sign (30 min cap per class) + boundary constants'
+    undecided = []
+    fails = []
+
+    def one(j):
+        return j, _cbmc(base + j[1], j[2])
+    with cf.ThreadPoolExecutor(max_workers=14) as ex:
+        for j, (st, out, dt) in ex.map(one, jobs):
+            r.cases += 1
+            if st == 'ok':
+                r.nontrivial += 1
+            elif st == 'fail':
+                fails.append((j, out))
+            elif st == 'timeout':
+                undecided.append(j[0])
+            else:
+                raise InfraError('cbmc failed on io.c (%s):\n%s' % (j[0], out[-2000:]))
+    r.cmds = ['cbmc c/io_harness.c -DIO_C_PATH=\\"%s\\" -DLO=.. -DHI=.. | -DCONST=.. %s' % (IO_C, ' '.join(CBMC_FLAGS))]
+    r.functions = ['lang/driver/infrastructure/io.c: print_i64, println_i64']
+    r.samples = [{'cbmc_io_case': j[0]} for j in jobs[:3]]
+    r.assumptions = ['write(2) is replaced by a recording stub; CBMC 6.11 with its C semantics (LP64); digit classes that hit the time cap are reported as undecided, never as proved: %s' % (undecided or 'none')]
+    if tier == 'thorough' and not undecided and not fails:
+        r.level = 'proof'
+        r.obligations = r.discharged = len(jobs)
+    for j, out in fails:
+        failed = re.findall(r'\[([^\]]+)\] line (\d+) (.*?): FAILURE', out)
+        m = re.match(r'constant (-?\d+)', j[0])
+        cex = None
+        if m:
+            v = int(m.group(1))
+            ob = {}
+            for line in (False, True):
+                b = native_print(v, line)
+                ob['println_i64' if line else 'print_i64'] = repr(b)
+            cex = {'input': 'value = %d' % v, 'what': 'real io.c compiled natively writes %s; expected %r' % (ob, str(v)),
+                   'replay_cmd': None}
+        r.violations.append({'obligation': 'cbmc::io.c::print_contract', 'kind': 'cbmc', 'what': '; '.join('%s line %s: %s' % f for f in failed[:4]),
+                             'input': j[0], 'verifier_output': '\n'.join(l for l in out.split('\n') if 'FAILURE' in l)[:3000],
+                             'witness_class': j[0], 'counterexample': cex})
+    return r
+
+
+def _driver_harness(n, driver_path):
+    t = open(os.path.join(CDIR, 'driver_harness.c.tmpl')).read()
+    params = ''.join(', int64_t input%d' % i for i in range(1, n + 1))
+    stores = '\n'.join('  got[%d] = input%d;' % (i - 1, i) for i in range(1, n + 1))
+    t = t.replace('@N@', str(n)).replace('@DRIVER@', driver_path).replace('@PARAMS@', params).replace('@STORES@', stores)
+    p = os.path.join(VERIF, 'build', 'driver_harness_%d.c' % n)
+    with open(p, 'w') as f:
+        f.write(t)
+    return p
+
+
+@register('cbmc_driver')
+def cbmc_driver(prop, tier, seed):
+    import concurrent.futures as cf
+    native_build()
+    ddir = os.path.join(VERIF, 'build', 'drivers')
+    p = subprocess.run([os.path.join(NATIVE, 'target', 'release', 'gen_drivers'), ddir], capture_output=True, text=True)
+    if p.returncode != 0:
+        raise InfraError('gen_drivers failed: ' + p.stderr[-2000:])
+    r = AuxResult('cbmc_driver', level='proof')
+    r.bound = 'CBMC on the driver text generated by the real driver::generate_c_driver(n, None) for n = 0..7, all argc in 0..n+3, all 64-bit argument values, all results of asm_main (loop-free up to the fixed argument count: complete)'
+    r.functions = ['lang/driver/src/lib.rs: generate_c_driver', 'lang/driver/infrastructure/driver-template.c: main']
+    r.cmds = ['native/target/release/gen_drivers build/drivers ; cbmc build/driver_harness_<n>.c --unwind 12 --unwinding-assertions --bounds-check --pointer-check']
+    r.assumptions = ['atoi/atol/atoll/strtol/strtoll are given their C-standard contracts by type (the denoted value if representable in the result type, unspecified otherwise); calloc/free/write stubbed; POSIX exit status = low 8 bits of main\'s int result (T4)']
+
+    def one(n):
+        h = _driver_harness(n, os.path.join(ddir, 'target_scc', 'infrastructure', 'driver%d.c' % n))
+        return n, _cbmc([h, '--unwind', '12', '--unwinding-assertions', '--bounds-check', '--pointer-check', '--trace'], 600)
+    with cf.ThreadPoolExecutor(max_workers=8) as ex:
+        for n, (st, out, dt) in ex.map(one, range(0, 8)):
+            r.obligations += 1
+            r.cases += 1
+            r.nontrivial += 1
+            if st == 'ok':
+                r.discharged += 1
+            elif st == 'fail':
+                failed = [f for f in re.findall(r'\] line \d+ (.*?): FAILURE', out)]
+                vals = {}
+                for m in re.finditer(r'denoted\[(\d+)l?\]=(-?\d+)', out):
+                    vals[int(m.group(1))] = int(m.group(2))
+                argc = re.findall(r'argc=(-?\d+)', out)
+                args = [vals.get(i, 0) for i in range(n)]
+                cex = {'input': 'n=%d argc=%s argv[1..]=%s' % (n, argc[-1] if argc else '?', args), 'what': '; '.join(failed[:3]), 'replay_cmd': None}
+                cex.update(replay_driver(n, args, ddir))
+                r.violations.append({'obligation': 'cbmc::driver%d::argument-contract' % n, 'kind': 'cbmc', 'what': '; '.join(failed[:3]), 'input': cex['input'],
+                                     'verifier_output': '\n'.join(l for l in out.split('\n') if 'FAILURE' in l)[:2000], 'witness_class': '; '.join(failed[:1]),
+                                     'counterexample': cex})
+            else:
+                raise InfraError('cbmc could not analyse the generated driver for n=%d:\n%s' % (n, out[-2000:]))
+    r.samples = [{'cbmc_driver': 'driver%d.c' % n} for n in (0, 3, 7)]
+    return r
+
+
+def replay_driver(n, args, ddir):
+    """compile the real generated driver with a stub asm_main that prints its parameters; run it on the counterexample"""
+    bdir = os.path.join(VERIF, 'build', 'driver_replay')
+    os.makedirs(bdir, exist_ok=True)
+    stub = os.path.join(bdir, 'stub%d.c' % n)
+    params = ''.join(', int64_t a%d' % i for i in range(1, n + 1))
+    prints = ''.join('  printf("%%lld\\n", (long long)a%d);\n' % i for i in range(1, n + 1))
+    with open(stub, 'w') as f:
+        f.write('#include <stdint.h>\n#include <stdio.h>\nint asm_main(void *heap%s) asm("asm_main");\nint asm_main(void *heap%s) {\n%s  return 0;\n}\n' % (params, params, prints))
+    exe = os.path.join(bdir, 'drv%d' % n)
+    p = subprocess.run(['gcc', '-o', exe, os.path.join(ddir, 'target_scc', 'infrastructure', 'driver%d.c' % n), stub], capture_output=True, text=True)
+    if p.returncode != 0:
+        return {'replay': 'driver does not compile natively: ' + p.stderr[-500:]}
+    r = subprocess.run([exe] + [str(a) for a in args], capture_output=True, text=True)
+    got = r.stdout.split()
+    want = [str(a) for a in args]
+    return {'replay': 'real driver run with arguments %s passed %s to asm_main' % (want, got), 'replay_ok': got == want}
